@@ -99,12 +99,30 @@ pub fn specimen_cases(seed: u64) -> Vec<(String, ContCase, bool)> {
         ("twofiles-lz4".into(), tiny_case(&mut rng, Pkg::TwoFiles, Comp::Lz4(1)), true),
         ("noconcat-lzma".into(), tiny_case(&mut rng, Pkg::NoConcat, Comp::Lzma(0)), true),
         ("medium-zstd".into(), medium_case(&mut rng), false),
+        // three content packs all recorded with the empty location, joined with the other packs by tools::concat
+        ("loose-concat".into(), loose_case(&mut rng), true),
     ]
+}
+
+fn loose_case(rng: &mut Rng) -> ContCase {
+    let mut c = tiny_case(rng, Pkg::OneFile, Comp::Zstd(1));
+    for comp in [Comp::None, Comp::Lz4(0)] {
+        let items = vec![
+            Item { len: 60, ent: Ent::High, hint: Hint::No, src: Src::Mem, dup_of: None },
+            Item { len: 200, ent: Ent::Low4, hint: Hint::Yes, src: Src::Mem, dup_of: None },
+        ];
+        c.extra.push(ContentCase { seed: rng.next(), comp, cached: false, items });
+    }
+    c
 }
 
 pub fn build_specimen(name: &str, case: &ContCase, small: bool, dir: &Path) -> Result<Specimen, String> {
     std::fs::create_dir_all(dir).map_err(|e| e.to_string())?;
-    let created = create_container(case, dir, "c.jbk", Arc::new(()))?;
+    let created = if name == "loose-concat" {
+        create_loose(case, dir, &|_, _| String::new(), Some("c.jbk"))?
+    } else {
+        create_container(case, dir, "c.jbk", Arc::new(()))?
+    };
     let _ = std::fs::remove_dir_all(dir.join("inputs"));
     let mut files = vec![];
     for f in &created.files {
@@ -112,12 +130,7 @@ pub fn build_specimen(name: &str, case: &ContCase, small: bool, dir: &Path) -> R
         let view = indep::decode_file(&bytes);
         files.push((f.file_name().unwrap().to_string_lossy().into_owned(), bytes, view));
     }
-    let mut plan = plan_for(case, Some(&created));
-    if !small {
-        // keep the medium specimen's dump affordable: a sample of the addresses, all entries
-        let keep: Vec<(u16, u32)> = plan.addrs.iter().cloned().filter(|(_, i)| *i % 50 == 0 || *i >= 1095).collect();
-        plan.addrs = keep;
-    }
+    let plan = plan_for(case, Some(&created));
     let pristine = dump_container(&created.path, &plan);
     Ok(Specimen { name: name.to_string(), case: case.clone(), dir: dir.to_path_buf(), files, plan, pristine, small })
 }
@@ -620,9 +633,17 @@ pub fn run_for(desc: &Value, ctx: &Ctx, oracle: Oracle) -> CaseOut {
             // the damaged pack's own check, when the pack can still be reached
             for o in &owners {
                 let kind = view.packs.get(*o).map(|p| p.hdr.kind).unwrap_or(0);
-                let key = match kind {
-                    b'd' => Some("check/directory_pack".to_string()),
-                    b'c' => Some("check/pack/1".to_string()),
+                let uuid = view.packs.get(*o).map(|p| p.hdr.uuid).unwrap_or_default();
+                // pack id of the damaged content pack, from the manifest of the specimen (identity is the uuid)
+                let mut pack_id = None;
+                for (_, _, v) in &s.files {
+                    if let Some(indep::PackBody::Manifest { infos }) = v.manifest_pack().map(|p| &p.body) {
+                        pack_id = pack_id.or(infos.iter().find(|i| i.uuid == uuid).map(|i| i.id));
+                    }
+                }
+                let key = match (kind, pack_id) {
+                    (b'd', _) => Some("check/directory_pack".to_string()),
+                    (b'c', Some(id)) => Some(format!("check/pack/{id}")),
                     _ => None,
                 };
                 if let Some(k) = key {
